@@ -122,7 +122,7 @@ def InvBody (s : State α) (m : Mon α) : Prop :=
   m.must = none ∧
   match s.ret with
   | none => s.h.consumed = false ∧ s.h.err = false ∧ m.opened = openOf s.stack ∧
-            m.stopped = (if s.h.done then some Act.done else none)
+            m.stopped = (if s.h.done then some Stop.done else none)
   | some r => okRes r m
 
 /-- the monitor accepts the log so far and its state mirrors the walker's -/
@@ -196,8 +196,8 @@ omit [DecidableEq α] in
 @[simp] theorem halt_ret (s : State α) (r : Result) : (halt s r).ret = some r := rfl
 @[simp] theorem apply_continue (h : Handler) : h.apply .continue = h := rfl
 @[simp] theorem apply_consume (h : Handler) : h.apply .consume = { h with consumed := true } := rfl
-@[simp] theorem apply_done (h : Handler) : h.apply .done = { h with done := true } := rfl
-@[simp] theorem apply_error (h : Handler) : h.apply .error = { h with err := true, done := true } := rfl
+@[simp] theorem apply_done (h : Handler) (c : Bool) : h.apply (.done c) = { h with consumed := h.consumed || c, done := true } := rfl
+@[simp] theorem apply_error (h : Handler) (c : Bool) : h.apply (.error c) = { h with consumed := h.consumed || c, err := true, done := true } := rfl
 
 theorem fire_replay (v : Visitor α) (s : State α) (e : Ev α) (m m' : Mon α)
     (hm : replay v [] s.log Mon.init = some m) (hs : m.step (v (s.log ++ [e])) e = some m') :
@@ -228,12 +228,12 @@ theorem iter_inv (v : Visitor α) (s : State α) (c : Cursor α) (rest : List (C
     have h1h : s1.h = s.h.apply (v (s.log ++ [Ev.enter c.node])) := by rw [← hs1]; rfl
     have h1r : s1.ret = none := by rw [← hs1]; exact hret
     cases ha : v (s.log ++ [Ev.enter c.node]) with
-    | error =>
+    | error cc =>
       rw [ha] at h1h hrep
       have : s1.h.err = true := by rw [h1h]; rfl
       simp only [this, ite_true]
       exact halt_inv v s1 _ _ hrep (by simp [Mon.after, hmust]) (by simp [okRes, Mon.after])
-    | done =>
+    | done cc =>
       rw [ha] at h1h hrep
       have e1 : s1.h.err = false := by rw [h1h]; exact herr
       have e2 : s1.h.done = true := by rw [h1h]; rfl
@@ -279,12 +279,12 @@ theorem iter_inv (v : Visitor α) (s : State α) (c : Cursor α) (rest : List (C
       have h3r : s3.ret = none := by rw [← hs3]; exact hret
       rw [clear_log] at hrep
       cases ha : v (s.log ++ [Ev.visit c.node]) with
-      | error =>
+      | error cc =>
         rw [ha] at h3h hrep
         have : s3.h.err = true := by rw [h3h]; rfl
         simp only [this, ite_true]
         exact halt_inv v s3 _ _ hrep (by simp [Mon.after, hmust]) (by simp [okRes, Mon.after])
-      | done =>
+      | done cc =>
         rw [ha] at h3h hrep
         have e1 : s3.h.err = false := by rw [h3h]; exact herr
         have e2 : s3.h.done = true := by rw [h3h]; rfl
@@ -801,6 +801,35 @@ theorem byLabel_false : byLabel (fun _ : α => false) = (fun _ => Act.continue) 
   unfold byLabel
   split <;> simp
 
+/-! ### the handler: a callback's calls and their net effect -/
+
+theorem calls_closed (h : Handler) (cs : List Call) :
+    h.calls cs = { consumed := h.consumed || cs.contains .consume,
+                   done := h.done || (cs.contains .setDone || cs.contains (.setError false)),
+                   err := h.err || cs.contains (.setError false) } := by
+  induction cs generalizing h with
+  | nil => simp [Handler.calls]
+  | cons c cs ih =>
+    have : h.calls (c :: cs) = (h.call c).calls cs := rfl
+    rw [this, ih]
+    cases c with
+    | consume => simp [Handler.call, List.contains_cons, Bool.or_assoc]
+    | setDone => simp [Handler.call, List.contains_cons, Bool.or_assoc]
+    | setError b =>
+      cases b
+      · simp [Handler.call, List.contains_cons, Bool.or_assoc, Bool.or_comm, Bool.or_left_comm]
+      · simp [Handler.call, List.contains_cons]
+
+/-- Executing the handler calls of a callback one by one (`Handler.call`: the exact transcription of Consume,
+SetDone, SetError with its `err != nil` guard) has exactly the effect of the summarising action `actOf`. So
+`genericCalls` is `walk.Generic` for visitors given by their calls, `SetError(nil)` included (a no-op). -/
+theorem calls_eq_apply (h : Handler) (cs : List Call) : h.calls cs = h.apply (actOf cs) := by
+  rw [calls_closed]
+  unfold actOf
+  simp only
+  cases he : cs.contains (Call.setError false) <;> cases hd : cs.contains Call.setDone <;>
+    cases hc : cs.contains Call.consume <;> simp [Handler.apply]
+
 /-! ### consequences of monitor acceptance, in index form -/
 
 section consequences
@@ -822,8 +851,21 @@ theorem judgeRun_generic (v : Visitor α) (t : Tree α) (r : Result) (h : (gener
   rw [h] at hr; cases hr
   simp [judgeRun, hm, hmust, hok]
 
-theorem step_stop (m m' : Mon α) (a : Act) (e : Ev α) (h : m.step a e = some m')
-    (ha : a = .done ∨ a = .error) : m'.stopped = some a := by
+/-- which `Stop` an action causes -/
+def Act.stop : Act → Option Stop
+  | .done _ => some .done
+  | .error _ => some .error
+  | _ => none
+
+theorem step_stop (m m' : Mon α) (a : Act) (e : Ev α) (st : Stop) (h : m.step a e = some m')
+    (ha : a.stop = some st) : m'.stopped = some st := by
+  have haft : ∀ (m0 : Mon α) l b, (m0.after a l b).stopped = some st := by
+    intro m0 l b
+    cases a with
+    | «continue» => cases ha
+    | consume => cases ha
+    | done c => simp only [Act.stop, Option.some.injEq] at ha; subst ha; rfl
+    | error c => simp only [Act.stop, Option.some.injEq] at ha; subst ha; rfl
   unfold Mon.step at h
   split at h
   · cases h
@@ -831,20 +873,20 @@ theorem step_stop (m m' : Mon α) (a : Act) (e : Ev α) (h : m.step a e = some m
     | enter l =>
       simp only at h; split at h
       · cases h
-      · simp only [Option.some.injEq] at h; rw [← h]; rcases ha with rfl | rfl <;> rfl
+      · simp only [Option.some.injEq] at h; rw [← h]; exact haft _ _ _
     | visit l =>
       simp only at h; split at h
       · cases h
       · split at h
         · split at h
-          · simp only [Option.some.injEq] at h; rw [← h]; rcases ha with rfl | rfl <;> rfl
+          · simp only [Option.some.injEq] at h; rw [← h]; exact haft _ _ _
           · cases h
         · cases h
     | exit l =>
       simp only at h
       split at h
       · split at h
-        · simp only [Option.some.injEq] at h; rw [← h]; rcases ha with rfl | rfl <;> rfl
+        · simp only [Option.some.injEq] at h; rw [← h]; exact haft _ _ _
         · cases h
       · cases h
 
@@ -897,13 +939,13 @@ theorem replay_split (v : Visitor α) (pre post : List (Ev α)) (e : Ev α) (m :
     | none => simp [h2] at h
     | some m2 => simp only [h2] at h; exact ⟨m1, m2, rfl, h2, h⟩
 
-/-- after a callback in which the visitor called SetDone/SetError there is no further event -/
-theorem stop_is_last (v : Visitor α) (pre post : List (Ev α)) (e : Ev α) (m : Mon α)
+/-- after a callback in which the visitor called SetDone/SetError(non-nil) there is no further event -/
+theorem stop_is_last (v : Visitor α) (pre post : List (Ev α)) (e : Ev α) (m : Mon α) (st : Stop)
     (h : replay v [] (pre ++ e :: post) Mon.init = some m)
-    (ha : v (pre ++ [e]) = .done ∨ v (pre ++ [e]) = .error) :
-    post = [] ∧ m.stopped = some (v (pre ++ [e])) := by
+    (ha : (v (pre ++ [e])).stop = some st) :
+    post = [] ∧ m.stopped = some st := by
   obtain ⟨m1, m2, _, h2, h3⟩ := replay_split v pre post e m h
-  have hs := step_stop m1 m2 _ e h2 ha
+  have hs := step_stop m1 m2 _ e st h2 ha
   cases post with
   | nil => simp only [replay, Option.some.injEq] at h3; rw [← h3]; exact ⟨rfl, hs⟩
   | cons e' es => simp [replay, Mon.step, hs] at h3
@@ -926,7 +968,7 @@ theorem consume_next_is_exit (v : Visitor α) (pre post : List (Ev α)) (e : Ev 
     | some m3 => exact ⟨es, by rw [step_must m2 m3 l _ e' hs h4]⟩
 
 /-- a visitor that never cancels leaves the monitor un-stopped -/
-theorem replay_never_stopped (v : Visitor α) (hv : ∀ h, v h ≠ .done ∧ v h ≠ .error) (seen L : List (Ev α))
+theorem replay_never_stopped (v : Visitor α) (hv : ∀ h, (v h).stop = none) (seen L : List (Ev α))
     (m m' : Mon α) (h : replay v seen L m = some m') (hm : m.stopped = none) : m'.stopped = none := by
   induction L generalizing seen m with
   | nil => simp only [replay, Option.some.injEq] at h; rw [← h]; exact hm
@@ -947,8 +989,8 @@ theorem replay_never_stopped (v : Visitor α) (hv : ∀ h, v h ≠ .done ∧ v h
           cases hva : v (seen ++ [e]) with
           | «continue» => exact h0
           | consume => cases b <;> simpa using h0
-          | done => exact absurd hva hne.1
-          | error => exact absurd hva hne.2
+          | done cc => rw [hva] at hne; cases hne
+          | error cc => rw [hva] at hne; cases hne
         cases e with
         | enter l =>
           simp only at hs; split at hs
